@@ -5,6 +5,7 @@ from http.client import HTTPException
 from urllib.request import urlopen, Request as HttpRequest
 
 from .output import UIError
+from .ui import escape_braces
 
 try:
     from datetime import datetime, UTC
@@ -31,13 +32,14 @@ class ReBenchDB(object):
         self.ui = ui
 
         if not server_base_url:
-            raise UIError("ReBenchDB expected server address, but got: %s" % server_base_url, None)
+            raise UIError("ReBenchDB expected server address, but got: %s"
+                          % escape_braces(str(server_base_url)), None)
 
         # A user warning that old style configuration is detected
         if server_base_url.endswith("/results"):
             raise UIError(
-                "The URL to ReBenchDB should exclude '/results' but was '%s'" % server_base_url,
-                None)
+                "The URL to ReBenchDB should exclude '/results' but was '%s'"
+                % escape_braces(server_base_url), None)
 
         ui.debug_output_info(
             'ReBench will report all measurements to {url}\n', url=server_base_url)
@@ -129,7 +131,7 @@ class ReBenchDB(object):
             except TypeError as te:
                 # can't handle this, just abort
                 self.ui.error("{ind}Error: Reporting to ReBenchDB failed.\n"
-                               + "{ind}{ind}" + str(te) + "\n")
+                               + "{ind}{ind}" + escape_braces(str(te)) + "\n")
                 return False, None
             except (IOError, HTTPException) as error:
                 # pylint: disable-next=no-member
@@ -140,11 +142,11 @@ class ReBenchDB(object):
                     self.ui.warning(
                         "ReBenchDB: had issue reporting data. Trying again after "
                         + str(wait_sec) + "seconds.\n"
-                        + "{ind}{ind}" + str(error) + "\n")
+                        + "{ind}{ind}" + escape_braces(str(error)) + "\n")
                     attempts -= 1
                     sleep(wait_sec)
                     wait_sec *= 2
                 else:
                     self.ui.error("{ind}Error: Reporting to ReBenchDB failed.\n"
-                                   + "{ind}{ind}" + str(error) + "\n")
+                                   + "{ind}{ind}" + escape_braces(str(error)) + "\n")
                     return False, None
